@@ -418,7 +418,6 @@ impl<'a> Machine<'a> {
                     Ok(()) => Ok(Val::N(r)),
                     Err(NumErr::Overflow) => {
                         if ty.is_whole() {
-                            self.triggers.insert("int-arith-overflow-unguarded");
                             self.feat("int-arith-overflow");
                         }
                         self.err(6, path)
@@ -434,9 +433,6 @@ impl<'a> Machine<'a> {
                 }
                 match x.div(&y, ty) {
                     Ok(r) => {
-                        if x.ty.is_whole() && y.ty.is_whole() && !r.is_whole() {
-                            self.triggers.insert("div-of-whole-operands-typed-whole");
-                        }
                         match r.fits(ty) {
                             Ok(()) => Ok(Val::N(r)),
                             Err(e) => self.num_err(e, path),
@@ -509,11 +505,6 @@ impl<'a> Machine<'a> {
                 let va = self.eval(a, path)?;
                 let vb = self.eval(b, path)?;
                 let r = self.binop(*op, va, vb, path)?;
-                if *op == BinOp::Div && self.impl_types_whole(a) && self.impl_types_whole(b) {
-                    // the implementation types this quotient INTEGER/LONG: no conversion (and no range check)
-                    // is emitted where it, or arithmetic built on it, is stored
-                    self.triggers.insert("div-of-whole-operands-typed-whole");
-                }
                 Ok(r)
             }
             Expr::Call(p, args) => self.call(*p, args, path).map(|v| v.expect("function value")),
@@ -968,7 +959,6 @@ impl<'a> Machine<'a> {
                         Ok(()) => {}
                         Err(Stop::Err(mut e)) => {
                             e.paths.push(end_path.clone());
-                            self.triggers.insert("int-arith-overflow-unguarded");
                             return Err(Stop::Err(e));
                         }
                         Err(o) => return Err(o),
